@@ -86,6 +86,14 @@ def ordered_map(ck):
         ck.ok("C09.1", short(fn) + ":map", w, f"rows come out of the order-preserving `{mapname}`")
     else:
         raise AnalysisError(f"{w}: parallel map `{mapname}` is not in the table of ordered/unordered maps")
+    # the progress bar of the map writes elapsed times and rates: it belongs on stderr (tqdm's default) - on stdout it lands in
+    # front of / inside the XMAP that is written there when -o is omitted, and differs from run to run
+    for k in call.keywords:
+        if k.arg == "file":
+            txt = ast.unparse(k.value)
+            ck.judge(txt in ("sys.stderr", "stderr"), "C09.8", short(fn) + ":progress-bar", w,
+                     "the progress bar is not written to standard output (the XMAP goes there without -o; the bar's timings differ "
+                     "between runs and --cpus values)", found=f"file={txt}", required="no file= (stderr)")
     fns, wreach, _ = result_path(ck)
     n_calls = 0
     for f in fns:
@@ -353,6 +361,20 @@ def persistent_state(ck, rule):
                          f"parameter `{pname}` defaults to one shared mutable object ({ast.unparse(dflt)}) that worker code changes in "
                          "place: per-process state that outlives a query - what a worker returns depends on which queries it saw before "
                          "(so on --cpus and scheduling)", found=ast.unparse(mnode)[:120], required="a fresh object per call (default None)")
+        # a class-level (or module) attribute written while a worker handles a molecule: one value per worker process, whatever the
+        # objects that are pickled anew for every task
+        from ..types import ClsT as _ClsT, ModT as _ModT
+        for attr, stmt in E.attribute_stores(f):
+            try:
+                bt = ctx.t.type_of(f, attr.value)
+            except RecursionError:  # pragma: no cover
+                bt = None
+            if isinstance(bt, (_ClsT, _ModT)):
+                ck.violation(rule, short(f) + ":store:" + ast.unparse(attr), where(f, stmt),
+                             f"`{ast.unparse(attr)}` is a class-level / module-level attribute written in worker-reachable code: it "
+                             "lives as long as the worker process, so what a molecule gets depends on which molecules the same "
+                             "worker handled before - on --cpus and on scheduling", found=ast.unparse(stmt)[:120],
+                             required="no run-time write to class-level / module-level state in the worker")
         for node in ast.walk(f.node):
             tgts = node.targets if isinstance(node, ast.Assign) else ([node.target] if isinstance(node, (ast.AugAssign, ast.NamedExpr)) else [])
             name = None
